@@ -230,3 +230,83 @@ def model_json(model):
         out["sigs"][str(g)] = {"dt": s["dt"], "bits": WIDTH[s["dt"]], "norm": list(s["norm"]), "length": s.get("length", 0),
                                "first": s["first"] - s["base"], "defined": s["defined"]}
     return out
+
+
+def gen_defs_program(rng, x, big=False):
+    """C13: definitions and user data, with duplicates, missing sources, data for
+    undefined signals, long strings, large user data, late definitions."""
+    ops = [{"op": "wopen"}]
+    feat = set()
+    good_ids = [1, 2, 3, 100, 254, 255]
+    bad_ids = [256, 257, 65535]
+    defined_src = {0}
+    defined_sig = {0: "f32"}
+
+    def strspec(maxlen=60):
+        r = rng.random()
+        if r < 0.12:
+            return None
+        if r < 0.22:
+            return ["lit", ""]
+        if r < 0.6:
+            return ["lit", rng.choice(["a", "name", "x-y_z.1", "0123456789012345678", "01234567890123456789"])]
+        if big and r < 0.7:
+            feat.add("big-string")
+            return ["rep", rng.choice([1048574, 1048575, 1048576, 1048577, 1048578, 2100000, 65536]), rng.randint(1, 10 ** 6)]
+        return ["rep", rng.choice([21, 22, 64, 200, 1000, maxlen]), rng.randint(1, 10 ** 6)]
+
+    nsteps = rng.randint(6, 22)
+    for step in range(nsteps):
+        r = rng.random()
+        if r < 0.3:
+            sid = rng.choice(good_ids) if rng.random() < 0.8 else rng.choice(bad_ids + [0])
+            if sid in defined_src:
+                feat.add("dup-source")
+            if sid >= 256:
+                feat.add("bad-source-id")
+            ops.append({"op": "source", "id": sid, "name": strspec(), "vendor": strspec(), "model": strspec(), "version": strspec(), "serial": strspec()})
+            if sid < 256:
+                defined_src.add(sid)
+        elif r < 0.6:
+            gid = rng.choice(good_ids) if rng.random() < 0.8 else rng.choice(bad_ids + [0])
+            src = rng.choice(sorted(defined_src)) if rng.random() < 0.75 else rng.choice(good_ids + bad_ids)
+            dt = rng.choice(ALL_TYPES)
+            st = rng.choice([0, 0, 0, 1])
+            if src not in defined_src:
+                feat.add("missing-source")
+            if gid in defined_sig:
+                feat.add("dup-signal")
+            spd, sdf, eps, sumdf = rng.choice([(0, 0, 0, 0), small_geometry(rng, dt), (rng.choice([1, 9, 77, 1000, 100000]), rng.choice([1, 10, 33, 500]), rng.choice([1, 25, 640, 999]), rng.choice([1, 7, 20, 50]))])
+            ops.append({"op": "signal", "id": gid, "src": src, "st": st, "dt": dt, "rate": rng.choice([0, 1, 1000, 48000]) if st == 0 else rng.choice([0, 100]),
+                        "spd": spd, "sdf": sdf, "eps": eps, "sumdf": sumdf, "adf": rng.choice([0, 10, 100, 7]), "udf": rng.choice([0, 10, 100, 3]),
+                        "name": strspec(), "units": strspec(20)})
+            if gid < 256 and src in defined_src and src < 256 and gid not in defined_sig and (st == 1 or ops[-1]["rate"] != 0):
+                defined_sig[gid] = dt if st == 0 else None
+        elif r < 0.8:
+            stype = rng.choice([1, 1, 2, 3])
+            size = rng.choice([0, 1, 7, 8, 9, 100, 5000])
+            if big and rng.random() < 0.3:
+                size = rng.choice([1048575, 1048576, 1048577, 3000000])
+                feat.add("big-userdata")
+            ops.append({"op": "userdata", "meta": rng.choice([0, 1, 0x7ff, 0xfff, 0x1234, 0xffff]), "stype": stype,
+                        "data": ["rep", size, rng.randint(1, 10 ** 6)] if stype == 1 else ["lit", "user-data-%d" % step]})
+        else:
+            # data for a signal: defined FSR ones get a few samples, undefined ones must be rejected
+            cands = [g for g in defined_sig if defined_sig[g]]
+            if cands and rng.random() < 0.6:
+                g = rng.choice(cands)
+                ops.append({"op": "fsr", "sig": g, "id": 0, "n": rng.choice([1, 10, 100]), "dt": defined_sig[g]})
+                feat.add("data-for-defined")
+            else:
+                g = rng.choice([k for k in good_ids if k not in defined_sig] or [77])
+                feat.add("data-for-undefined")
+                ops.append(rng.choice([{"op": "fsr", "sig": g, "id": 0, "n": 10, "dt": "f32"},
+                                       {"op": "anno", "sig": g, "ts": 0, "stype": 2, "data": ["lit", "x"]},
+                                       {"op": "utc", "sig": g, "id": 0, "t": 0},
+                                       {"op": "omit", "sig": g, "en": 1}]))
+    ops.append({"op": "wclose"})
+    ops += [{"op": "ropen"}, {"op": "sources"}, {"op": "signals"}]
+    for g in sorted(set(list(defined_sig) + [5, 77])):
+        ops.append({"op": "signal1", "id": g})
+    ops += [{"op": "userdatas"}, {"op": "userdatas", "stop": 2}, {"op": "rclose"}]
+    return {"x": x, "kind": "c13", "feat": sorted(feat), "ops": ops}
